@@ -727,23 +727,23 @@ func (h *Hydrator) Restore(ctx context.Context, infos []*ltx.FileInfo) error {
 	return nil
 }
 
-// CatchUp applies updates from LTX files between fromTXID and toTXID.
+// CatchUp brings the hydrated file from fromTXID to toTXID by applying, in
+// order, the files of the restore plan for toTXID that end after fromTXID.
+// A plan file holds the final version (as of its MaxTXID) of every page changed
+// in its range, so applying a compacted file over a copy that already has part
+// of its range is idempotent; level-0 files removed by retention are covered by
+// the level-1+ file that replaced them.
 func (h *Hydrator) CatchUp(ctx context.Context, fromTXID, toTXID ltx.TXID) error {
 	h.logger.Debug("catching up hydration", "from", fromTXID, "to", toTXID)
 
-	// Fetch LTX files from fromTXID+1 to toTXID
-	itr, err := h.client.LTXFiles(ctx, 0, fromTXID+1, false)
+	infos, err := CalcRestorePlan(ctx, h.client, toTXID, time.Time{}, h.logger)
 	if err != nil {
-		return fmt.Errorf("list ltx files for catch-up: %w", err)
+		return fmt.Errorf("calc restore plan for catch-up: %w", err)
 	}
-	defer itr.Close()
-
-	for itr.Next() {
-		info := itr.Item()
-		if info.MaxTXID > toTXID {
-			break
+	for _, info := range infos {
+		if info.MaxTXID <= fromTXID {
+			continue
 		}
-
 		if err := h.ApplyLTX(ctx, info); err != nil {
 			return fmt.Errorf("apply ltx to hydrated file: %w", err)
 		}
